@@ -3,6 +3,7 @@ package props
 import (
 	"encoding/hex"
 	"fmt"
+	"mc/report"
 	"runtime"
 	"strings"
 	"sync"
@@ -68,7 +69,7 @@ func recoverErr(f func()) (err error) {
 			fr := runtime.CallersFrames(pcs[:n])
 			for {
 				f, more := fr.Next()
-				if strings.Contains(f.File, "/repo/") || strings.HasPrefix(f.Function, "free5gclib/") || strings.HasPrefix(f.Function, "tglib") || strings.HasPrefix(f.Function, "stgutg") {
+				if strings.Contains(f.File, report.RepoDir+"/") || strings.HasPrefix(f.Function, "free5gclib/") || strings.HasPrefix(f.Function, "tglib") || strings.HasPrefix(f.Function, "stgutg") {
 					site = " in " + f.Function
 					break
 				}
